@@ -53,6 +53,8 @@ pub const RAW: &[&str] = &[
     "\x1b[1~", "\x1b[2@", "\x1b]0;C:\\tmp\x07",
     // joiners, modifiers, selectors: sequences whose string width differs from the per-char sum
     "\u{200d}", "\u{1f3fd}", "\u{fe0f}", "👍", "👩", "💻", "\u{644}", "\u{627}", "\u{1f1e9}", "\u{1f1ea}", "\x1b[4:3m", ":", "?", "!",
+    // numeric but not ASCII-alphanumeric / not alphabetic; C1 controls (U+009C is the 8-bit ST)
+    "²", "½", "①", "٣", "５", "\u{9c}", "\u{9b}", "\u{9d}", "\u{90}",
 ];
 
 pub const VOCAB: &[&str] = &[
@@ -65,6 +67,8 @@ pub const VOCAB: &[&str] = &[
     // modifier sequences; ligatures; soft hyphens inside words
     "what ?!", "a )", "[ foo ]", "Bonjour !", "👩\u{200d}💻", "👍\u{1f3fd}", "ab\u{200d}cd", "\u{644}\u{627}\u{644}\u{627}", "❤\u{fe0f}",
     "Zusammen\u{ad}arbeit", "🇩🇪🇩🇪",
+    // hyphens next to non-ASCII digits and numbers
+    "x²-y²", "١٢٣٤-٥٦٧٨", "５-６", "½-①",
 ];
 
 pub const SGR: &[&str] = &[
